@@ -3,7 +3,7 @@ from registry_common import COMMON_ASSUME
 ENTRY = dict(
         title="Event dispatch: ordered callbacks, consistent stored value, once means once",
         design_ref="DESIGN.md section 6 / C13",
-        prop_modules=["C13", "C13Spec", "C13Filter", "C13Table"],
+        prop_modules=["C13", "C13Spec", "C13Filter", "C13Table", "C13Wake"],
         technique="Lean 4 interleaving machine (API calls, 'dispatch task i moves', 'waiter j moves', 'clock advances') with one inductive "
                   "invariant over ALL event lists and ALL callback scripts + trace-inclusion correspondence: a real EventManager with callbacks "
                   "suspended on harness-controlled futures under a virtual-time loop; the Lean driver replays the schedule the harness chose",
@@ -22,6 +22,8 @@ ENTRY = dict(
                    "choosing the schedule); asyncio's ready-queue FIFO order, Event and wait_for are exercised, not modelled (the driver applies FIFO "
                    "order to the machine's nondeterministic moves; the theorems hold for every order).",
         clauses={
+            "stores the final value and wakes EVERY waiter (over all histories of the event table)": "theorem (Props/C13Wake: waiters_hold_the_current_event — after every history of create_event / set_event / stores / loads / waits "
+                "starting, resuming, timing out, cancelled, each suspended waiter holds the very Event object the table has under its name (rests on event_identity); store_wakes_every_waiter — a store for a name leaves no waiter of that name suspended)",
             'public API audit: everything EventManager defines is in one of the two machines': 'table (Gen.eventManagerApi by reflection; event_manager_api_pinned: a new / renamed public method or a changed default breaks it)',
             "create_event identity: one Event per name for the manager's lifetime, also after timed-out and cancelled waits": 'theorem (C13T.event_identity, step_keeps, create_event_returns_the_same_object over ALL histories of create_event / set_event / store / load / wait / resume / expire / cancel) + correspondence (section `table`: Event object identity and is_set observed through `events` after every op)',
             'data / get_nowait / attribute access never yield a value that was not an outcome of a dispatch or load': 'theorem (C13T.data_is_an_outcome, only_dispatch_and_load_store, load_is_stores) + correspondence (every public reader compared with data after every op; get() after a bare set_event raises KeyError)',
